@@ -660,4 +660,30 @@ def R5b_remaining_accounts(run):
         run.check("R5b", "%s:slice-errors" % (pfx or "anchor"), inval, "%s no longer rejects invalid / insufficient slices" % path, loc=fn.loc(), detail="invalid slice / insufficient accounts => error")
 
 
-RULES = [R1_token_accounts, R3_back_references, R4_loaders_and_unchecked, R5_pinocchio_superset, R5b_remaining_accounts]
+def R4c_pair_loaders(run):
+    run.title("R4c", "TickArraysMut::load (Anchor and Pinocchio): both tick arrays go through load_tick_array_mut(account, pool key)? with the error propagated; the upper array is "
+                     "skipped only when it is the same account as the lower one")
+    facts = run.facts
+    for path in ("state::tick_array::TickArraysMut::<'a>::load", "pinocchio::state::whirlpool::tick_array::loader::TickArraysMut::<'a>::load"):
+        fn = facts.need_fn(path)
+        run.touch(fn)
+        label = "pinocchio" if path.startswith("pinocchio") else "anchor"
+        cs = calls_to(fn, ends("load_tick_array_mut"))
+        sides = sorted((arg_name(c[2][0]) or sh(c[2][0], 30), is_param(c[2][1], "whirlpool"), bool(cfg.result_checked(fn, c[0]))) for c in cs)
+        ok = [x[0] for x in sides] == ["lower_tick_array_info", "upper_tick_array_info"] and all(x[1] and x[2] for x in sides)
+        same = [at for at in A.atoms(fn) if at.cond() and at.cond()[0] in ("Eq", "Ne") and
+                {arg_name(x) or "" for x in [s_ for side_ in at.cond()[1:] for s_ in subterms(side_) if s_[0] == "param"]} == {"lower_tick_array_info", "upper_tick_array_info"}]
+        ok = ok and len(same) == 1
+        if ok:
+            at = same[0]
+            upper_block = [c[0] for c in cs if arg_name(c[2][0]) == "upper_tick_array_info"][0]
+            ne_side = at.false_targets[0] if at.cond()[0] == "Eq" else at.true_targets[0]
+            eq_side = at.true_targets[0] if at.cond()[0] == "Eq" else at.false_targets[0]
+            ok = upper_block in cfg.reach(fn, ne_side, cut_blocks=[at.block]) and upper_block not in cfg.reach(fn, eq_side, cut_blocks=[at.block])
+            # on the different-accounts side no success avoids the upper load
+            ok = ok and not cfg.success_reach(fn, ne_side, cut_blocks=[at.block, upper_block])
+        run.check("R4c", "pair-load@" + label, ok, "%s: loads are %s; expected load_tick_array_mut(lower, whirlpool)? and, unless both accounts are the same, load_tick_array_mut(upper, whirlpool)?" % (path, sides),
+                  loc=fn.loc(), detail="lower? ; upper? unless same key")
+
+
+RULES = [R4c_pair_loaders, R1_token_accounts, R3_back_references, R4_loaders_and_unchecked, R5_pinocchio_superset, R5b_remaining_accounts]
